@@ -251,8 +251,8 @@ def discover(inspect):
                 continue
             ops.append({"struct": it["for"], "module": mod, "operation_name": consts.get(mod, {}).get("OPERATION_NAME"),
                         "query": consts.get(mod, {}).get("QUERY"),
-                        "resp_ser": "Serialize" in derives_of(mod, "ResponseData"),
-                        "vars_de": "Deserialize" in derives_of(mod, "Variables")})
+                        "resp_ser": any(d.split("::")[-1] == "Serialize" for d in derives_of(mod, "ResponseData")),
+                        "vars_de": any(d.split("::")[-1] == "Deserialize" for d in derives_of(mod, "Variables"))})
     enums = []
     ser_impls = set()
     for it in items:
